@@ -1840,6 +1840,9 @@ lshpack_dec_decode (struct lshpack_dec *dec,
         output->val_len -= len + LSHPACK_DEC_HTTP1X_EXTRA;
     }
 
+    if (s == src_end)   /* value string literal is missing */
+        return LSHPACK_ERR_BAD_DATA;
+
     len = hdec_dec_str((unsigned char *)name, output->val_len, &s, src_end);
     if (len < 0)
     {
